@@ -98,9 +98,11 @@ class C02(PropCheck):
         from vlib.paths import CORPUS
         known_path = CORPUS / 'C02' / 'family_known.json'
         self._family_known = json.loads(known_path.read_text()) if known_path.exists() else {}
-        for doc_id, html in families.totality_documents():
-            out = wide_trace.render_outcome(html)
-            sec4.add(sx.line('total'), out, meta={'doc_id': doc_id, 'html': html}, tags=[doc_id.split('-')[1]])
+        for doc_id, html, *rest in families.totality_documents():
+            options = rest[0] if rest else {}
+            out = wide_trace.render_outcome(html, options=options)
+            sec4.add(sx.line('total'), out, meta={'doc_id': doc_id, 'html': html, 'options': options},
+                     tags=[doc_id.split('-')[1]])
 
     def classify(self, d):
         if d['section'] == 'totality-families' and self._family_known.get(d['meta']['doc_id']) == d['impl']:
@@ -142,7 +144,7 @@ class C02(PropCheck):
         inp = data.get('input', {})
         meta = inp.get('meta') or inp
         if 'html' in meta and 'doc' not in meta:
-            out = wide_trace.render_outcome(meta['html'])
+            out = wide_trace.render_outcome(meta['html'], options=meta.get('options'))
             return None if out == 'ok' else f'rendering failed with {out}'
         if 'doc' in meta:
             module, doc, out = pm_stage2.doc_and_real(inp)
